@@ -81,6 +81,7 @@ func hasBackEdgeTo(b, h *ssa.BasicBlock) bool {
 }
 
 func runC10(c *Ctx) {
+	runC10Synthetic(c)
 	p, fx := c.P, c.Fx
 	nilmapFacts = fx
 	pkgClusterInfo := "pkg/scheduler/cache/cluster_info"
@@ -328,6 +329,22 @@ func runC10(c *Ctx) {
 		}
 		for m, ss := range byMap {
 			nSites += len(ss)
+			// a reviewed invariant speaks about queues looked up by the id a job or queue carries for ITSELF; a lookup
+			// keyed by a parent link (empty for a top-level queue, so the result is nil by design) is never covered by
+			// it and needs a real guard at the use
+			var own []NilMapSite
+			for _, s := range ss {
+				if termOf(s.Lookup.Index).lastField() == "ParentQueue" {
+					c.Viol("O2", "NILMAP", funcKey(fn)+": deref of "+m+"[q.ParentQueue]", instrPos(s.Deref),
+						"a queue looked up through a parent link is used without a nil test ("+s.How+" at "+p.Pos(instrPos(s.Deref))+"): a top-level queue has no parent, the lookup yields nil and the scheduling cycle panics")
+					continue
+				}
+				own = append(own, s)
+			}
+			ss = own
+			if len(ss) == 0 {
+				continue
+			}
 			key := funcKey(rootFunc(fn)) + "|" + m
 			why, ok := justified[key]
 			used[key] = true
@@ -575,4 +592,82 @@ func inheritedJustification(p *Prog, fn *ssa.Function, mapVal ssa.Value, table m
 		return "", false
 	}
 	return why, n > 0
+}
+
+// C10-O6 (DOM): a synthetic queue cannot be replaced by an API object. With project-level fairness the snapshot files
+// a synthetic parent ("default") in the queue map and re-parents every listed queue to it. The map is keyed by the
+// queue's name, so a listed Queue of that very name would replace the synthetic parent and become its own parent —
+// and, because every other queue now hangs below a cycle, the hierarchy sanitiser removes ALL queues: one oddly
+// named Queue stops scheduling for the whole cluster. Every other insertion into a map that received a synthetic
+// queue is therefore guarded by "its name is not the synthetic one's".
+func runC10Synthetic(c *Ctx) {
+	p, fx := c.P, c.Fx
+	fn := c.Anchor("O6", "pkg/scheduler/cache/cluster_info", "ClusterInfo", "snapshotQueues")
+	synth := p.Func("pkg/scheduler/cache/cluster_info", "ClusterInfo", "getDefaultParentQueue")
+	if fn == nil {
+		return
+	}
+	if synth == nil {
+		c.Hold("O6", "DOM", funcKey(fn)+": no synthetic queue is filed", fn.Pos(), "getDefaultParentQueue does not exist")
+		return
+	}
+	var synthMaps []ssa.Value
+	var others []*ssa.MapUpdate
+	for _, in := range instrsIn(fn, func(in ssa.Instruction) bool { _, ok := in.(*ssa.MapUpdate); return ok }) {
+		mu := in.(*ssa.MapUpdate)
+		if termOf(mu.Value).contains(func(x *Term) bool { return x.isCallTo(synth) }) {
+			synthMaps = append(synthMaps, mu.Map)
+		} else {
+			others = append(others, mu)
+		}
+	}
+	if len(synthMaps) == 0 {
+		c.Hold("O6", "DOM", funcKey(fn)+": no synthetic queue is filed", fn.Pos(), "nothing to protect")
+		return
+	}
+	n := 0
+	for _, mu := range others {
+		same := false
+		for _, m := range synthMaps {
+			if m == mu.Map {
+				same = true
+			}
+		}
+		if !same {
+			continue
+		}
+		// only insertions that can meet the synthetic queue: those reachable after it was filed
+		reach := false
+		for _, in := range instrsIn(fn, func(in ssa.Instruction) bool {
+			m2, ok := in.(*ssa.MapUpdate)
+			return ok && termOf(m2.Value).contains(func(x *Term) bool { return x.isCallTo(synth) })
+		}) {
+			if _, _, found := reachAvoiding([]cfgPos{afterInstr(in)}, func(x ssa.Instruction) bool { return x == ssa.Instruction(mu) }, nil, nil); found {
+				reach = true
+			}
+		}
+		if !reach {
+			continue
+		}
+		n++
+		d, ok := hasFact(fx.FactsAt(mu), func(f Fact) bool {
+			if f.T.Op != "bin" || len(f.T.Args) != 2 {
+				return false
+			}
+			ne := (f.T.Name == "==" && !f.Pol) || (f.T.Name == "!=" && f.Pol)
+			if !ne {
+				return false
+			}
+			nameSide := func(t *Term) bool {
+				return t.lastField() == "Name" || t.lastField() == "UID" || strings.Contains(t.String(), "GetName")
+			}
+			synthSide := func(t *Term) bool {
+				return (t.Op == "const" && strings.Contains(t.String(), "\"")) || t.contains(func(x *Term) bool { return x.isCallTo(synth) })
+			}
+			return (nameSide(f.T.Args[0]) && synthSide(f.T.Args[1])) || (nameSide(f.T.Args[1]) && synthSide(f.T.Args[0]))
+		})
+		c.Check(ok, "O6", "DOM", funcKey(fn)+": a listed queue cannot replace the synthetic parent queue", instrPos(mu), trunc(d, 120),
+			"a Queue object whose name equals the synthetic parent's is filed under the same key: it replaces the parent, becomes its own parent, and the cycle removal then deletes every queue of the cluster (nothing is scheduled any more)")
+	}
+	c.Floor("O6", "DOM insertions next to a synthetic queue", n, 1)
 }
